@@ -1,6 +1,147 @@
-"""Thorough tier additions (DESIGN.md 6.2/6.3): proof stability under other solver seeds
-and a halved resource limit, Kani scalar harnesses, differential validation."""
+"""Thorough tier: what is added on top of the quick tier's proof run (which has already passed when this is called).
+
+1. proof stability: every unit of the property is re-verified under two other Z3 random seeds and with the resource
+   limit halved.  A unit that only verifies under the default seed is reported as `unstable` in the evidence (it is a
+   maintenance risk, not a violation: the exit code is unchanged).
+2. validation of the trusted base by execution (bounded, labelled so):
+   a. loop-free Kani harnesses over the full domain of char/u8 for the assumed scalar contracts of specs/lib
+      (complete proofs: no loops, full-domain symbolic input);
+   b. the property's differential searcher (real crate vs the oracle written from the statement) with 10x the
+      iterations and three seeds.  The Verus proof rests on assumed contracts of std/world functions; a concrete input on
+      which the real code disagrees with the statement oracle although every obligation is discharged means one of those
+      assumptions (or the oracle) is wrong, and is reported as a VIOLATION with the witness;
+   c. C04 only: the equivalence of right-most-first expansion with csh's left-to-right expansion, exhaustively for all
+      brace patterns up to length 8 over a 5-letter alphabet (the part of C04 that is not proved).
+3. replay of the recorded witnesses of known findings against the real code (done by bin/check).
+"""
+import hashlib
+import json
+import os
+import shutil
+import subprocess
+import tempfile
+import time
+
+from . import replay, runner
+
+KANI_UNITS = {"dewey", "pkgname", "pattern", "plist", "distinfo", "summary"}
+
+
+def _stability(pid, cfg, repo, root):
+    out = []
+    build = os.path.join(root, "build", pid + "_stab")
+    variants = [("seed=11", ["--smt-option", "smt.random_seed=11"]),
+                ("seed=23", ["--smt-option", "smt.random_seed=23"]),
+                ("rlimit=5 (half)", ["--rlimit", "5"])]
+    devs = tuple(cfg.get("always_devs", []))
+    # known-finding deviations keep the statement obligations that are expected to fail out of the stability run
+    try:
+        known = json.load(open(os.path.join(root, "known_findings.json")))
+        devs = devs + tuple(k["deviation"] for k in known.get("findings", []) if k["property"] == pid and k.get("deviation"))
+    except (OSError, ValueError):
+        pass
+    for u in cfg["units"]:
+        spec = os.path.join(root, "specs", u + ".rs")
+        for label, extra in variants:
+            t = time.time()
+            r = runner.verify_unit(u, spec, repo, build, list(extra), False, 1200, devs)
+            out.append({"unit": u, "variant": label, "status": r.status, "smt_ms": r.smt_ms, "wall_s": round(time.time() - t, 1),
+                        "failed": sorted(set(f.obligation_id(u) for f in r.failures))[:5], "reason": (r.reason or "")[:200]})
+    return out
+
+
+def _kani_scalar(root):
+    work = tempfile.mkdtemp(prefix="verif-kani-", dir="/var/tmp")
+    try:
+        p = subprocess.run(["python3", os.path.join(root, "kani/scalar/gen.py"), root, work], stdout=subprocess.PIPE,
+                           stderr=subprocess.STDOUT, universal_newlines=True)
+        if p.returncode != 0:
+            return {"status": "error", "detail": p.stdout[-300:]}
+        env = dict(os.environ, CARGO_NET_OFFLINE="true", CARGO_TARGET_DIR=os.path.join(work, "target"))
+        t = time.time()
+        try:
+            p = subprocess.run(["cargo", "kani"], cwd=work, env=env, stdout=subprocess.PIPE, stderr=subprocess.STDOUT,
+                               universal_newlines=True, timeout=1800)
+        except subprocess.TimeoutExpired:
+            return {"status": "timeout"}
+        ok = [l.split()[-1].rstrip(".") for l in p.stdout.split("\n") if l.startswith("Checking harness")]
+        succ = p.stdout.count("VERIFICATION:- SUCCESSFUL")
+        fail = p.stdout.count("VERIFICATION:- FAILED")
+        return {"status": "ok" if (fail == 0 and succ == len(ok) and succ > 0) else "failed", "harnesses": ok, "successful": succ,
+                "failed": fail, "back_end": "Kani 0.68.0 / CBMC 6.11 (loop-free, full-domain symbolic char/u8: complete, not bounded)",
+                "wall_s": round(time.time() - t, 1), "tail": "" if fail == 0 else p.stdout[-1500:]}
+    finally:
+        shutil.rmtree(work, ignore_errors=True)
 
 
 def run(pid, cfg, repo, seed, root):
-    return {}, 0, []
+    cov = {}
+    lines = []
+    code = 0
+    t0 = time.time()
+    stab = _stability(pid, cfg, repo, root)
+    cov["proof_stability"] = stab
+    unstable = [s for s in stab if s["status"] != "ok"]
+    cov["unstable_variants"] = len(unstable)
+    if set(cfg["units"]) & KANI_UNITS:
+        k = _kani_scalar(root)
+        cov["kani_scalar_contracts"] = k
+        if k.get("status") == "failed":
+            # an assumed scalar contract disagrees with std: every proof that uses it is void
+            d = os.path.join(os.environ.get("VERIF_EVID", os.path.join(root, "evidence")), "replay")
+            os.makedirs(d, exist_ok=True)
+            path = os.path.join(d, "%s-kani-scalar.json" % pid)
+            json.dump({"property": pid, "failure": {"obligation": "lib::scalar-contracts::kani", "verus_output": k.get("tail", "")},
+                       "witness": {"found": False}}, open(path, "w"), indent=1)
+            lines.append("VIOLATION property=%s replay=%s obligation=lib::assumed-scalar-contract(kani) no-failing-input-found" % (pid, path))
+            code = 1
+    if cfg.get("replay"):
+        exe, err = replay._build(repo)
+        dif = {"label": "bounded differential validation of the trusted base (not a proof)", "runs": []}
+        if exe is None:
+            dif["error"] = err
+        else:
+            env = dict(os.environ, VERIF_SEARCH_ITERS=os.environ.get("VERIF_THOROUGH_ITERS", "200000"))
+            for s in (seed, seed + 1, seed + 2):
+                t = time.time()
+                try:
+                    p = subprocess.run([exe, "search", pid, str(s)], stdout=subprocess.PIPE, stderr=subprocess.PIPE,
+                                       universal_newlines=True, timeout=1500, env=env)
+                    out = p.stdout
+                except subprocess.TimeoutExpired:
+                    dif["runs"].append({"seed": s, "result": "timeout"})
+                    continue
+                w = None
+                for ln in out.split("\n"):
+                    if ln.startswith("WITNESS "):
+                        try:
+                            w = json.loads(ln[8:])
+                        except ValueError:
+                            pass
+                dif["runs"].append({"seed": s, "iters": env["VERIF_SEARCH_ITERS"], "result": "witness" if w else "no-disagreement",
+                                    "wall_s": round(time.time() - t, 1), "last": out.strip().split("\n")[-1][:200]})
+                if w:
+                    w["found"] = True
+                    d = os.path.join(os.environ.get("VERIF_EVID", os.path.join(root, "evidence")), "replay")
+                    os.makedirs(d, exist_ok=True)
+                    path = os.path.join(d, "%s-%s.json" % (pid, hashlib.sha1(json.dumps(w, sort_keys=True).encode()).hexdigest()[:10]))
+                    json.dump({"property": pid, "failure": {"obligation": "%s::(all-discharged;assumption-check)" % cfg["units"][0],
+                                                            "verus_output": "every proof obligation is discharged, but the real code disagrees with the statement "
+                                                                            "oracle on this input: an assumed contract (trusted base) does not hold"},
+                               "witness": w}, open(path, "w"), indent=1)
+                    lines.append("VIOLATION property=%s replay=%s obligation=%s::(all-discharged;assumption-check)" % (pid, path, cfg["units"][0]))
+                    code = 1
+                    break
+            if pid == "C04" and code == 0:
+                n = os.environ.get("VERIF_C04_MAXLEN", "8")
+                t = time.time()
+                p = subprocess.run([exe, "bounded", "C04", n], stdout=subprocess.PIPE, stderr=subprocess.PIPE, universal_newlines=True, timeout=3000)
+                dif["c04_expansion_equivalence"] = {"label": "bounded exhaustive (all brace patterns up to length %s)" % n,
+                                                    "result": p.stdout.strip().split("\n")[-1][:200], "wall_s": round(time.time() - t, 1)}
+                if p.returncode == 1:
+                    lines.append("VIOLATION property=C04 replay=%s obligation=pattern::(bounded;csh-expansion-equivalence) no-failing-input-found" %
+                                 os.path.join(root, "evidence", "C04.json"))
+                    code = 1
+        cov["differential_validation"] = dif
+    cov["thorough_wall_s"] = round(time.time() - t0, 1)
+    return cov, code, lines
